@@ -1,19 +1,21 @@
-(* C01 at full strength on the structural fragment: ONE membership relation, written from the
-   documented element-wise rules and not from the code of the fast pass, and the theorem that the
-   fast pass accepts exactly its members and returns exactly their image:
+(* C01 at full strength on the model's type grammar: ONE membership relation, written from the documented element-wise
+   rules and not from the code of the fast pass, and the theorem that the fast pass accepts exactly its members and returns
+   exactly their image:
 
-       tc t v = Ok x  <->  member t v x          for every structural t, every v, every x.
+       tc t v = Ok x  <->  member t v x          for EVERY type t of the grammar, every v, every x   ([tc_is_member]).
 
-   [member] is defined by recursion on the type (a specification: it never mentions map_out,
-   zip_out, first_ok or guard).  The fragment: Any, None, the scalars, literals, the four
-   sequence classes, fixed tuples, mappings, struct literal types, unions, conditions -- closed
-   under nesting.  Outside: enums, dataclasses and tagged unions, whose acceptance rules are
-   the theorems of C02 / C15 / C12.
-   In a union the relation says "the left-most member of which v is a member, every earlier
-   one REFUSING v" (an earlier member that lets an exception escape ends the conversion: C04
-   shows that no such exception exists for well-formed types). *)
+   [member] is defined by recursion on the type (a specification: it never mentions map_out, zip_out, first_ok, the
+   class loops or guard).  Any, None, the scalars, literals, the four sequence classes, fixed tuples, mappings, struct
+   literal types, unions, conditions, enums, dataclasses in both layouts and tagged unions in the three layouts -- closed
+   under nesting.  ([structural] is the device of the proof -- the fragment grew constructor by constructor -- and
+   [all_structural] shows it is now everything.)
+   In a union the relation says "the left-most member of which v is a member, every earlier one REFUSING v" (an earlier
+   member that lets an exception escape ends the conversion: C04 shows that no such exception exists for well-formed
+   types).  For a dataclass the relation fixes which element or key is bound to which field and that each bound value
+   is a member of the field's type; the instance is then [construct]ed (defaults, set-field record, __post_init__),
+   which the C14 theorems describe. *)
 From Coq Require Import ZArith List Bool String Lia.
-Require Import Base.Outcome Model.Values Model.Vocab Model.Types Model.Conv Gen.GenScalars Gen.GenGates Gen.GenExcept Gen.GenConds.
+Require Import Base.Outcome Model.Values Model.Vocab Model.Types Model.Expected Model.Conv Gen.GenScalars Gen.GenGates Gen.GenExcept Gen.GenConds.
 Import ListNotations.
 
 Section Spec.
@@ -53,6 +55,60 @@ Section Entries.
     end.
 End Entries.
 
+(* enums: the data is first converted at the members' value types (None, a scalar type, or anything: [ty_of_val]; the
+   distinct ones in member order, left-most accepting first), and the image is the FIRST member whose value equals the
+   converted data in kind and value *)
+Definition head_member (t : ty) (v y : pyval) : Prop :=
+  match t with
+  | TAny => y = v
+  | TNone => v = VNone /\ y = VNone
+  | TScalar s => scalar_allowed s (kind_of v) = true /\ scalar_ctor s v = ROk y
+  | _ => False
+  end.
+Definition value_types (members : list (string * pyval)) : list ty :=
+  dedup_heads (map (fun m => ty_of_val (snd m)) members).
+Definition enum_member (n : string) (members : list (string * pyval)) (v x : pyval) : Prop :=
+  exists y, leftmost (fun h => head_member h v y) (fun h => tc_head h v = Reject) (value_types members) /\
+            hashable y = true /\
+            exists mname mval, find (fun m => lit_match y (snd m)) members = Some (mname, mval) /\ x = VEnum n mname mval.
+
+(* dataclasses.  Sequence layout: the elements are paired, in order, with the fields the constructor binds (a field with
+   init=False takes no position); each element is a member of its field's type.  Mapping layout: entry by entry in data
+   order, a key binds to the field that lists it among its input names ([with_field]: the last such field), at most once
+   per field; an unknown key is skipped when the class allows extra keys and refuses the value otherwise.  [vals] is the
+   list of (field name, image) in binding order; the instance is then built by [construct] (defaults, the set-field
+   record, __post_init__), which C14 describes. *)
+Section ClassSpec.
+  Context {A : Type}.
+  Variable R : A -> pyval -> pyval -> Prop.
+  Fixpoint positional (fs : list (fld * A)) (xs : list pyval) (vals : list (string * pyval)) : Prop :=
+    match fs, xs with
+    | (f, t) :: r, x :: s =>
+        if f_init f
+        then match vals with
+             | (n, y) :: rest => n = f_name f /\ R t x y /\ positional r s rest
+             | [] => False
+             end
+        else positional r xs vals
+    | _, _ => vals = []
+    end.
+  Section Bound.
+    Variable fs : list (fld * A).
+    Variable allow_extra : bool.
+    Definition binds_one (k x : pyval) (acc acc' : list (string * pyval)) : Prop :=
+      match with_field k (fun f t => has_value (f_name f) acc = false /\
+                                     exists y, R t x y /\ acc' = (acc ++ [(f_name f, y)])%list) fs with
+      | Some P => P
+      | None => allow_extra = true /\ acc' = acc
+      end.
+    Fixpoint bound (kvs : list (pyval * pyval)) (acc vals : list (string * pyval)) : Prop :=
+      match kvs with
+      | [] => vals = acc
+      | (k, x) :: r => exists acc', binds_one k x acc acc' /\ bound r acc' vals
+      end.
+  End Bound.
+End ClassSpec.
+
 Fixpoint member (t : ty) (v x : pyval) {struct t} : Prop :=
   match t with
   | TAny => x = v
@@ -74,7 +130,19 @@ Fixpoint member (t : ty) (v x : pyval) {struct t} : Prop :=
       exists d, entries member fs (pairs_of v) d /\ x = VDict d
   | TUnion ms => leftmost (fun m => member m v x) (fun m => tc m v = Reject) ms
   | TCond inner c => member inner v x /\ eval_cond c x = ROk true
-  | _ => False
+  | TEnum n members => enum_member n members v x
+  | TClass h fs =>
+      (pane_seq_gate_try (kind_of v) = true /\ has_fmt FTuple h = true /\
+       (let '(mn, mx) := pos_args (map fst fs) in
+        (mn <=? List.length (items_of v))%nat && (List.length (items_of v) <=? mx)%nat = true) /\
+       exists vals, positional member fs (items_of v) vals /\ construct h (map fst fs) vals = Some (ROk x))
+      \/
+      (pane_seq_gate_try (kind_of v) = false /\ pane_map_gate_try (kind_of v) = true /\ has_fmt FStruct h = true /\
+       exists vals, bound member fs (c_allow_extra h) (pairs_of v) [] vals /\ construct h (map fst fs) vals = Some (ROk x))
+  | TTagged tag lay vs =>
+      gate_mapping (kind_of v) = true /\
+      exists tagv body, tag_extract tag lay (pairs_of v) = Some (tagv, body) /\ hashable tagv = true /\
+        match with_variant tagv (fun t' => member t' body x) vs with Some P => P | None => False end
   end.
 
 Inductive structural : ty -> Prop :=
@@ -87,7 +155,10 @@ Inductive structural : ty -> Prop :=
 | SDict k v : structural k -> structural v -> structural (TDict k v)
 | SStruct fs : Forall (fun nt => structural (snd nt)) fs -> structural (TStruct fs)
 | SUnion ms : Forall structural ms -> structural (TUnion ms)
-| SCond t c : structural t -> structural (TCond t c).
+| SCond t c : structural t -> structural (TCond t c)
+| SEnum n members : structural (TEnum n members)
+| SClass h fs : Forall (fun ft => structural (snd ft)) fs -> structural (TClass h fs)
+| STagged tag lay vs : Forall (fun vt => structural (snd vt)) vs -> structural (TTagged tag lay vs).
 
 Definition exact (t : ty) : Prop := forall v x, tc t v = Ok x <-> member t v x.
 
@@ -182,6 +253,144 @@ Proof.
       rewrite (with_key_factor k (fun t0 => member t0 x y)), W in M. simpl in M. contradiction.
 Qed.
 
+Lemma tc_head_member t v y : tc_head t v = Ok y <-> head_member t v y.
+Proof.
+  destruct t; simpl; try (split; [discriminate|contradiction]).
+  - split; intros H; [inversion H; reflexivity|now subst].
+  - destruct v; split; intros H; try discriminate; try (destruct H as [H _]; discriminate).
+    + inversion H. auto.
+    + destruct H as [_ H]. now subst.
+  - destruct (scalar_allowed s (kind_of v)).
+    + rewrite guard_ok. split; [auto|now intros [_ H]].
+    + split; [discriminate|intros [H _]; discriminate].
+Qed.
+
+Lemma first_ok_leftmost_gen {A} (f : A -> outcome pyval) (Acc : A -> Prop) y l :
+  (forall m, f m = Ok y <-> Acc m) -> first_ok f l = Ok y <-> leftmost Acc (fun m => f m = Reject) l.
+Proof.
+  intros Hf. induction l as [|m l IH]; simpl.
+  - split; [discriminate|contradiction].
+  - split; intros H.
+    + destruct (f m) as [z| |e] eqn:E; try discriminate.
+      * inversion H; subst. left. now apply Hf.
+      * right. split; [reflexivity|]. now apply IH.
+    + destruct H as [M|[Rj L]].
+      * apply Hf in M. now rewrite M.
+      * rewrite Rj. now apply IH.
+Qed.
+
+Definition is_head (t : ty) : Prop := match t with TAny | TNone | TScalar _ => True | _ => False end.
+Lemma ty_of_val_head v : is_head (ty_of_val v).
+Proof. unfold ty_of_val. destruct v; simpl; try exact I; destruct (scalar_of_val _); exact I. Qed.
+Lemma dedup_heads_heads l : Forall is_head l -> Forall is_head (dedup_heads l).
+Proof.
+  induction l as [|x r IH]; simpl; intros Fl; [constructor|]. inversion Fl as [|? ? Hx Hr]; subst.
+  constructor; [assumption|]. apply Forall_forall. intros z Hz. apply filter_In in Hz. destruct Hz as [Hz _].
+  specialize (IH Hr). rewrite Forall_forall in IH. now apply IH.
+Qed.
+Lemma value_types_heads members : Forall is_head (value_types members).
+Proof.
+  unfold value_types. apply dedup_heads_heads. apply Forall_forall. intros t Ht.
+  apply in_map_iff in Ht. destruct Ht as [m [<- _]]. apply ty_of_val_head.
+Qed.
+
+Lemma tc_enum_inner_leftmost members v y :
+  tc_enum_inner members v = Ok y <->
+  leftmost (fun h => head_member h v y) (fun h => tc_head h v = Reject) (value_types members).
+Proof.
+  unfold tc_enum_inner, enum_inner. fold (value_types members).
+  pose proof (value_types_heads members) as Hh.
+  destruct (value_types members) as [|t [|t' l]].
+  - simpl. split; [discriminate|contradiction].
+  - inversion Hh as [|? ? Ht _]; subst.
+    destruct t; try contradiction; cbn [leftmost]; rewrite tc_head_member; tauto.
+  - apply first_ok_leftmost_gen. intros m. apply tc_head_member.
+Qed.
+
+Lemma enum_lookup_ok n members y x :
+  enum_lookup n members y = ROk x <->
+  hashable y = true /\ exists mname mval, find (fun m => lit_match y (snd m)) members = Some (mname, mval) /\ x = VEnum n mname mval.
+Proof.
+  unfold enum_lookup. destruct (hashable y).
+  - destruct (find (fun m => lit_match y (snd m)) members) as [[mname mval]|].
+    + split.
+      * intros H; inversion H; subst. split; [reflexivity|]. eauto.
+      * intros [_ [a [b [H ->]]]]. inversion H; subst. reflexivity.
+    + split; [discriminate|]. intros [_ [a [b [H _]]]]. discriminate.
+  - split; [discriminate|intros [H _]; discriminate].
+Qed.
+
+Lemma with_field_factor {A C} k (g : fld -> A -> C) (fs : list (fld * A)) :
+  with_field k g fs = option_map (fun ft => g (fst ft) (snd ft)) (with_field k (fun f t => (f, t)) fs).
+Proof.
+  induction fs as [|[f t] fs IH]; simpl; [reflexivity|]. rewrite IH.
+  destruct (with_field k (fun f0 t0 => (f0, t0)) fs) as [[f' t']|]; simpl; [reflexivity|].
+  destruct (field_accepts k f); reflexivity.
+Qed.
+Lemma with_field_in {A} k (fs : list (fld * A)) f t :
+  with_field k (fun f t => (f, t)) fs = Some (f, t) -> In (f, t) fs.
+Proof.
+  induction fs as [|[f' t'] fs IH]; simpl; [discriminate|].
+  destruct (with_field k (fun f0 t0 => (f0, t0)) fs) as [[f'' t'']|].
+  - intros H; inversion H; subst. right. now apply IH.
+  - destruct (field_accepts k f'); [|discriminate]. intros H; inversion H; subst. now left.
+Qed.
+Lemma with_variant_factor {A C} tagv (g : A -> C) (vs : list (pyval * A)) :
+  with_variant tagv g vs = option_map g (with_variant tagv (fun t => t) vs).
+Proof. induction vs as [|[tv t] vs IH]; simpl; [reflexivity|]. destruct (lit_match tagv tv); [reflexivity|exact IH]. Qed.
+Lemma with_variant_in {A} tagv (vs : list (pyval * A)) t :
+  with_variant tagv (fun t => t) vs = Some t -> In t (map snd vs).
+Proof.
+  induction vs as [|[tv t'] vs IH]; simpl; [discriminate|]. destruct (lit_match tagv tv).
+  - intros H; inversion H; auto.
+  - intros H; right; auto.
+Qed.
+
+Lemma tuple_try_positional (fs : list (fld * ty)) : Forall (fun ft => exact (snd ft)) fs -> forall xs vals,
+  tuple_try_loop tc fs xs = Ok vals <-> positional member fs xs vals.
+Proof.
+  induction 1 as [|[f t] fs Ht _ IH]; intros xs vals; simpl in *.
+  - split; intros H; [now inversion H|now subst].
+  - destruct xs as [|x xs]; [split; intros H; [now inversion H|now subst]|].
+    destruct (f_init f).
+    + split.
+      * destruct (tc t x) as [y| |z] eqn:T; try discriminate.
+        destruct (tuple_try_loop tc fs xs) as [rest| |z] eqn:L; try discriminate.
+        intros H; inversion H; subst. split; [reflexivity|]. split; [now apply Ht|now apply IH].
+      * destruct vals as [|[n y] rest]; [contradiction|]. intros [-> [M P]].
+        apply Ht in M. rewrite M. apply IH in P. now rewrite P.
+    + apply IH.
+Qed.
+
+Lemma struct_try_bound (fs : list (fld * ty)) ae : Forall (fun ft => exact (snd ft)) fs -> forall kvs acc vals,
+  struct_try_loop tc fs ae kvs acc = Ok vals <-> bound member fs ae kvs acc vals.
+Proof.
+  intros E. induction kvs as [|[k x] kvs IH]; intros acc vals; simpl.
+  - split; intros H; [now inversion H|now subst].
+  - unfold binds_one.
+    rewrite (with_field_factor k (fun f t => if has_value (f_name f) acc then Reject else
+               match tc t x with Ok y => Ok (acc ++ [(f_name f, y)])%list | Reject => Reject | Escape e => Escape e end)).
+    destruct (with_field k (fun f t => (f, t)) fs) as [[f t]|] eqn:W; simpl.
+    + assert (Et : exact t).
+      { apply with_field_in in W. rewrite Forall_forall in E. exact (E _ W). }
+      split.
+      * destruct (has_value (f_name f) acc) eqn:Hv; [discriminate|].
+        destruct (tc t x) as [y| |z] eqn:T; try discriminate.
+        intros H. exists (acc ++ [(f_name f, y)])%list. split; [|now apply IH].
+        rewrite (with_field_factor k _), W. simpl. split; [exact Hv|]. exists y. split; [now apply Et|reflexivity].
+      * intros [acc' [B Bd]]. rewrite (with_field_factor k _), W in B. simpl in B.
+        destruct B as [Hv [y [M ->]]]. rewrite Hv. apply Et in M. rewrite M. now apply IH.
+    + split.
+      * destruct ae; [|discriminate]. intros H. exists acc. split; [|now apply IH].
+        rewrite (with_field_factor k _), W. simpl. auto.
+      * intros [acc' [B Bd]]. rewrite (with_field_factor k _), W in B. simpl in B. destruct B as [-> ->]. now apply IH.
+Qed.
+
+Ltac no_ok H :=
+  first [ discriminate H
+        | apply guard_ok in H; discriminate H
+        | unfold guard in H; destruct (caught _ _); discriminate H ].
+
 Theorem tc_exactly_member : forall t, structural t -> exact t.
 Proof.
   intros t. induction t as [| |s|c e IHe|es IHes|t1 t2 IHk IHv|fs IHfs|ms IHms|vals|n mem|h fs IHfs|t c IHe|tag lay vs IHvs] using ty_ind';
@@ -271,6 +480,42 @@ Proof.
   - (* literal *) cbn [tc member]. destruct (existsb (lit_match v) vals).
     + split; intros H; [inversion H; auto|destruct H; now subst].
     + split; [discriminate|intros [_ H]; discriminate].
+  - (* enum *)
+    cbn [tc member]. unfold enum_member. split.
+    + destruct (tc_enum_inner mem v) as [y| |z] eqn:T; try discriminate.
+      intros H. apply guard_ok in H. apply enum_lookup_ok in H. destruct H as [Hh Hf].
+      exists y. split; [now apply tc_enum_inner_leftmost|]. split; assumption.
+    + intros [y [L [Hh Hf]]]. apply tc_enum_inner_leftmost in L. rewrite L.
+      apply guard_ok. apply enum_lookup_ok. split; assumption.
+  - (* dataclass *)
+    assert (E : Forall (fun ft => exact (snd ft)) fs).
+    { match goal with H : Forall (fun x => structural (snd x) -> exact (snd x)) fs, S' : Forall _ fs |- _ =>
+        clear - H S'; induction H; inversion S'; subst; constructor; auto end. }
+    cbn [tc member]. destruct (pane_seq_gate_try (kind_of v)).
+    + destruct (has_fmt FTuple h).
+      * destruct (pos_args (map fst fs)) as [mn mx].
+        destruct ((mn <=? List.length (items_of v))%nat && (List.length (items_of v) <=? mx)%nat).
+        -- split.
+           ++ destruct (tuple_try_loop tc fs (items_of v)) as [vals| |z] eqn:L; try discriminate.
+              intros H. left. repeat split. exists vals. split; [now apply tuple_try_positional|].
+              destruct (construct h (map fst fs) vals) as [r|].
+              ** apply guard_ok in H. now subst.
+              ** no_ok H.
+           ++ intros [[_ [_ [_ [vals [P C]]]]]|[G _]]; [|discriminate].
+              apply (tuple_try_positional fs E) in P. rewrite P, C. now apply guard_ok.
+        -- split; [discriminate|]. intros [[_ [_ [B _]]]|[G _]]; discriminate.
+      * split; [discriminate|]. intros [[_ [F _]]|[G _]]; discriminate.
+    + destruct (pane_map_gate_try (kind_of v)).
+      * destruct (has_fmt FStruct h).
+        -- split.
+           ++ destruct (struct_try_loop tc fs (c_allow_extra h) (pairs_of v) []) as [vals| |z] eqn:L; try discriminate.
+              destruct (construct h (map fst fs) vals) as [r|] eqn:C; [|discriminate].
+              intros H. right. repeat split. exists vals. split; [now apply struct_try_bound|].
+              apply guard_ok in H. now subst.
+           ++ intros [[G _]|[_ [_ [_ [vals [B C]]]]]]; [discriminate|].
+              apply (struct_try_bound fs (c_allow_extra h) E) in B. rewrite B, C. now apply guard_ok.
+        -- split; [discriminate|]. intros [[G _]|[_ [_ [F _]]]]; discriminate.
+      * split; [discriminate|]. intros [[G _]|[_ [G _]]]; discriminate.
   - (* condition *)
     specialize (IHe ltac:(assumption)).
     cbn [tc member]. split.
@@ -280,6 +525,32 @@ Proof.
     + intros [M C]. apply IHe in M. rewrite M.
       assert (G : guard S_cond_try (eval_cond c x) = Ok true) by now apply guard_ok.
       now rewrite G.
+  - (* tagged union *)
+    assert (E : Forall (fun vt => exact (snd vt)) vs).
+    { match goal with H : Forall (fun x => structural (snd x) -> exact (snd x)) vs, S' : Forall _ vs |- _ =>
+        clear - H S'; induction H; inversion S'; subst; constructor; auto end. }
+    cbn [tc member]. destruct (gate_mapping (kind_of v)).
+    + destruct (tag_extract tag lay (pairs_of v)) as [[tagv body]|].
+      * destruct (hashable tagv) eqn:Hh.
+        -- rewrite (with_variant_factor tagv (fun t' => tc t' body)).
+           destruct (with_variant tagv (fun t0 => t0) vs) as [t'|] eqn:W; simpl.
+           ++ assert (Et : exact t').
+              { apply with_variant_in in W. apply in_map_iff in W. destruct W as [[tv t''] [<- I']].
+                rewrite Forall_forall in E. exact (E _ I'). }
+              split.
+              ** intros H. split; [reflexivity|]. exists tagv, body. split; [reflexivity|]. split; [exact Hh|].
+                 rewrite (with_variant_factor tagv (fun t0 => member t0 body x)), W. simpl. now apply Et.
+              ** intros [_ [tagv' [body' [Ex [_ M]]]]]. inversion Ex; subst.
+                 rewrite (with_variant_factor tagv' (fun t0 => member t0 body' x)), W in M. simpl in M. now apply Et.
+           ++ split.
+              ** intros H. no_ok H.
+              ** intros [_ [tagv' [body' [Ex [_ M]]]]]. inversion Ex; subst.
+                 rewrite (with_variant_factor tagv' (fun t0 => member t0 body' x)), W in M. simpl in M. contradiction.
+        -- split.
+           ++ intros H. no_ok H.
+           ++ intros [_ [tagv' [body' [Ex [Hh' _]]]]]. inversion Ex; subst. congruence.
+      * split; [discriminate|]. intros [_ [tagv' [body' [Ex _]]]]. discriminate.
+    + split; [discriminate|intros [H _]; discriminate].
 Qed.
 
 (* consequences the property text states outright *)
@@ -326,3 +597,63 @@ Proof. intros x M. apply (tc_exactly_member _ denotes_struct_structural) in M. v
 Example denotes_struct_non_member_unknown_key :
   forall x, ~ member denotes_struct_ty (VDict [(VStr "a", VInt 1); (VStr "b", VList []); (VStr "c", VNone)]) x.
 Proof. intros x M. apply (tc_exactly_member _ denotes_struct_structural) in M. vm_compute in M. discriminate. Qed.
+
+Definition denotes_enum_ty : ty :=
+  TSeq SeqList (TEnum "Color" [("RED"%string, VInt 1); ("GREEN"%string, VStr "g"); ("ALSO_RED"%string, VInt 1)]).
+Example denotes_enum_structural : structural denotes_enum_ty.
+Proof. repeat constructor. Qed.
+Example denotes_enum_member :
+  member denotes_enum_ty (VList [VInt 1; VStr "g"]) (VList [VEnum "Color" "RED" (VInt 1); VEnum "Color" "GREEN" (VStr "g")]).
+Proof. apply (tc_exactly_member _ denotes_enum_structural). vm_compute. reflexivity. Qed.
+Example denotes_enum_non_member : forall x, ~ member denotes_enum_ty (VList [VStr "zz"]) x.
+Proof. intros x M. apply (tc_exactly_member _ denotes_enum_structural) in M. vm_compute in M. discriminate. Qed.
+
+(* every type of the model's grammar is in the fragment: the theorem holds for ALL types *)
+Lemma all_structural : forall t, structural t.
+Proof.
+  induction t using ty_ind'; constructor; auto.
+Qed.
+Theorem tc_is_member : forall t v x, tc t v = Ok x <-> member t v x.
+Proof. intros t. apply tc_exactly_member. apply all_structural. Qed.
+Corollary member_is_functional t v x y : member t v x -> member t v y -> x = y.
+Proof. apply member_functional. apply all_structural. Qed.
+
+(* non-vacuity for dataclasses and tagged unions: P(note [init=False] = 'n', a: int, b: str = 'd') in both layouts, and an
+   internally tagged union of two classes *)
+Definition denotes_class_ty : ty :=
+  TClass (mkCls "P" [FStruct; FTuple] false false HNone)
+    [(mkFld "note" ["note"%string] "note" false false false (DValue (VStr "n")), TScalar SStr);
+     (mkFld "a" ["a"%string; "A"%string] "a" true false false DNone, TScalar SInt);
+     (mkFld "b" ["b"%string] "b" true false false (DValue (VStr "d")), TScalar SStr)].
+Example denotes_class_member_mapping :
+  member denotes_class_ty (VDict [(VStr "A", VInt 1)])
+         (VInst "P" [("note"%string, VStr "n"); ("a"%string, VInt 1); ("b"%string, VStr "d")] ["a"%string]).
+Proof. apply tc_is_member. vm_compute. reflexivity. Qed.
+Example denotes_class_member_sequence :
+  member denotes_class_ty (VList [VInt 1; VStr "x"])
+         (VInst "P" [("note"%string, VStr "n"); ("a"%string, VInt 1); ("b"%string, VStr "x")] ["a"%string; "b"%string]).
+Proof. apply tc_is_member. vm_compute. reflexivity. Qed.
+Example denotes_class_non_members : forall x,
+  ~ member denotes_class_ty (VDict [(VStr "a", VInt 1); (VStr "A", VInt 2)]) x /\      (* two keys naming one field *)
+  ~ member denotes_class_ty (VDict [(VStr "b", VStr "x")]) x /\                         (* required field absent *)
+  ~ member denotes_class_ty (VDict [(VStr "a", VInt 1); (VStr "note", VStr "m")]) x /\  (* init=False field is not read *)
+  ~ member denotes_class_ty (VList [VInt 1; VStr "x"; VStr "y"]) x.                      (* one element too many *)
+Proof.
+  intros x. repeat split; intros M; apply tc_is_member in M; vm_compute in M; discriminate.
+Qed.
+
+(* a tagged union, adjacent layout, tags of two kinds (1 and False): the data tag selects by kind AND value *)
+Definition denotes_tagged_ty : ty :=
+  let mk n tv := TClass (mkCls n [FStruct] false false HNone)
+                   [(mkFld "x" ["x"%string] "x" true false false DNone, TScalar SInt);
+                    (mkFld "kind" ["kind"%string] "kind" true false false (DValue tv), TLiteral [tv])] in
+  TTagged "kind" (LAdjacent "t" "c") [(VInt 1, mk "One"%string (VInt 1)); (VBool false, mk "Off"%string (VBool false))].
+Example denotes_tagged_member :
+  member denotes_tagged_ty (VDict [(VStr "t", VBool false); (VStr "c", VDict [(VStr "x", VInt 5)])])
+         (VInst "Off" [("x"%string, VInt 5); ("kind"%string, VBool false)] ["x"%string]).
+Proof. apply tc_is_member. vm_compute. reflexivity. Qed.
+Example denotes_tagged_non_members : forall x,
+  ~ member denotes_tagged_ty (VDict [(VStr "t", VBool true); (VStr "c", VDict [(VStr "x", VInt 5)])]) x /\   (* True is not the tag 1 *)
+  ~ member denotes_tagged_ty (VDict [(VStr "t", VInt 0); (VStr "c", VDict [(VStr "x", VInt 5)])]) x /\       (* 0 is not the tag False *)
+  ~ member denotes_tagged_ty (VDict [(VStr "t", VInt 1)]) x.                                                   (* no content key *)
+Proof. intros x. repeat split; intros M; apply tc_is_member in M; vm_compute in M; discriminate. Qed.
